@@ -6,6 +6,10 @@ VERIF = os.path.dirname(os.path.dirname(os.path.abspath(__file__)))
 props = [json.loads(l) for l in open(os.path.join(VERIF, "properties.jsonl"))]
 
 CLAIMS = {
+ "C20": dict(
+  text="Proved in Coq for the lexer model and every input text: every position carried by every token (and by the token a lexical error is reported at) is a position of the source - line = number of newlines before the offset, column = distance from the line start, no newline in between, offset within the text - hence the reported line exists and the column lies within it; the repeat counts of the error renderer are never negative; the parser model's precedence table equals the regenerated one. Tied to the code by token-level correspondence including all five position fields on generated programs, their layout variants and single-token mutants; the layout oracle (AST and bytecode of every re-laid-out variant equal the original's) and the diagnostics oracle (line/column exist, quoted line verbatim, rendering succeeds) run on the implementation.",
+  note="Trusted: Coq kernel, extraction, harness, variant generator. The layout-invariance theorem for the lexer model is not proved (checked by the variant correspondence on model and implementation). Parser/compiler error positions are token positions of the lexer (by inspection of the models, exercised by the mutant stream). An error at the very end of the input quotes the last line that has text (deliberate).",
+  technique="Rocq invariant proof over the lexer model + model correspondence + layout/diagnostics oracles", ref="DESIGN.md section 5 C20"),
  "C01": dict(
   text="The whole pipeline is modelled in Gallina (lexer, Pratt parser, compiler with symbol tables, VM) next to an independent definitional source semantics Sem. Proved: parse(print e)=e for the reduced Pratt parser instantiated with the precedence table regenerated from parser/precedence.go (all trees over all binary operators, unbounded), and the equality of the parser model's precedence function with that table. Tied to the code on every run by exact agreement of tokens+positions, ASTs, bytecode and results between the implementation and the extracted models on seeded grammar-directed programs, and judged by the Sem oracle (value, error class, print trace).",
   note="Trusted: Coq kernel, extraction, harness, generators; Sem states the source-level rules and is itself validated against the implementation; the compile-correctness theorem over the full models (C01_back) is not proved yet - the back end is covered by exact bytecode/result correspondence and the Sem oracle. Known finding: compound assignment to an index/attribute target evaluates the target twice.",
